@@ -40,8 +40,8 @@ INSTS := \
 INSTNAMES := $(foreach i,$(INSTS),$(firstword $(subst |, ,$(i))))
 adapter = $(subst _SP_, ,$(word 2,$(subst |, ,$(filter $(1)|%,$(INSTS)))))
 
-.PHONY: all quick clean $(addprefix cfg-,$(CONFIGS))
-all: $(addprefix cfg-,$(CONFIGS))
+.PHONY: all quick clean canary $(addprefix cfg-,$(CONFIGS))
+all: $(addprefix cfg-,$(CONFIGS)) canary
 quick: $(addprefix cfg-,$(QUICK_CONFIGS))
 
 define CONFIG_RULES
@@ -65,6 +65,12 @@ $(B)/bgsim.$(1): $(B)/$(1)/main.o $(B)/$(1)/step.o $(B)/$(1)/wrap.o $(B)/$(1)/sc
 	$$(CXX_$(1)) $$(FLAGS_$(1)) $$^ $(WRAP) -o $$@
 endef
 $(foreach c,$(CONFIGS),$(eval $(call CONFIG_RULES,$(c))))
+
+canary: $(B)/canary.ts
+$(B)/canary.ts: sim/racesim/canary.cpp sim/racesim/sched.cpp sim/racesim/sched.h
+	@mkdir -p $(B)/ts
+	clang++ -O1 $(STD) -c sim/racesim/sched.cpp -o $(B)/ts/canary_sched.o
+	clang++ -O1 $(STD) -fsanitize=thread -pthread sim/racesim/canary.cpp $(B)/ts/canary_sched.o -o $@
 
 clean:
 	rm -rf $(B)
